@@ -183,7 +183,7 @@ func run(sc *Scenario, st *stats) *verr {
 	subscribe := func() {
 		w.record("sub-call", -1, "")
 		go func() {
-			err := c.Subscribe(ctx, q, implType)
+			err := c.Subscribe(ctx, q, sc.clientTypes()...)
 			w.record("ret", -1, fmt.Sprint(err))
 		}()
 		synctest.Wait()
@@ -624,6 +624,7 @@ func (w *world) labels(st *stats) {
 	if sc.Pending > 0 {
 		st.label("buffered-messages-at-close")
 	}
+	w.errLabels(st)
 	if sc.Timeout > 0 {
 		st.label("query-timeout-set")
 	}
@@ -633,6 +634,33 @@ func (w *world) labels(st *stats) {
 		(st.phase == "backoff" || st.phase == "before-first-message")
 	if st.nontriv {
 		st.label("nontrivial")
+	}
+}
+
+// errLabels records which kinds of error value the failing steps that were
+// actually executed returned. Called with w.mu held.
+func (w *world) errLabels(st *stats) {
+	for sk := range w.errUsed {
+		site, kind, _ := strings.Cut(sk, ":")
+		st.label("error-value-at-" + site)
+		if site != "decoy" {
+			st.label("error-value:" + kind)
+		}
+		if site == "connect" || site == "subscribe" {
+			if multiError(kind) {
+				st.label("multi-error-before-stream")
+			}
+		}
+		if site == "decoy" {
+			st.label("two-client-types")
+			if multiError(kind) {
+				st.label("two-client-types-multi-error-decoy")
+			}
+			continue
+		}
+		if cancelLookalike(kind) && site != "close" {
+			st.label("attempt-fails-with-cancellation-lookalike")
+		}
 	}
 }
 
